@@ -58,6 +58,7 @@ def macroStep (h : Pipe.Host) (tok : String) : Option Pipe.Host :=
   | ("failR", some k) => (h.step (.fail k)).map (autoStop · fuel)
   | ("err", some k) => h.step (.err k)
   | ("pick", none) => if h.cur.isNone then none else h.step .pick
+  | ("burst", none) => if h.cur.isNone then none else h.step .pick   -- several triggers at once: one filler
   | ("up", none) => h.step .up
   | ("down", none) => if h.cur.isNone then none else h.step .down
   | ("pclose", none) => if h.cur.isNone then none else h.step .pclose
@@ -97,7 +98,7 @@ def showHs (s : Hs.St) : String :=
 /-- ops:
   pipe size=N ks=K auth=A rm=… : act act …
       a conducted schedule of the connect pipeline → the line of states `cur:open:closedconns;…` the model
-      predicts (initial state first); acts: okK failEK failRK errK pick up down pclose sclose
+      predicts (initial state first); acts: okK failEK failRK errK pick burst up down pclose sclose
   pipeobs kind=… size=N maxconns=M orphans=O closedconns=C afterclose=J leaked=L stack=… stalled=S sched=…
       the monitors of one pipeline scenario → accept | reject:<clause>  (C17_pipe_pool_bound,
       C17_pipe_no_conn_after_close, C17_pipe_session_close_leaves_nothing, C17_hs_reporters_terminate)
